@@ -12,6 +12,10 @@ import servecommon as sc
 def run(ctx):
     quick = ctx.tier == "quick"
     out = ctx.path("c07_out.ndjson")
+    if ctx.replay and json.load(open(ctx.replay))["case"].get("family") == "push":
+        import pushcommon
+        ctx.write_evidence("model_checking", {"replayed": ctx.replay, "push_handlers": pushcommon.run_part(ctx)})
+        return
     if ctx.replay:
         case = json.load(open(ctx.replay))["case"]
         vf = ctx.path("replay_vec.ndjson")
@@ -56,7 +60,13 @@ def run(ctx):
                 json.dumps(cmeta[t])[:300], json.dumps(ev[0] if ev else None)[:200]),
                 {"family": "correlate", "scenario": cmeta[t]["scenario"], "choices": cmeta[t]["choices"], "trace": trs[t], "rejected_line": hw})
     ctx.notes.append("id-collision scenarios (scheduler + Correlate.tla): %d schedules, %d traces, %d rejected" % (csumm["evaluations"], csumm["traces"], len(crej)))
+    # growth family: the library's own IQ handlers and responders (roster / blocklist pushes, ping, version,
+    # time, disco info) answer every request exactly once and apply pushes of the account itself only
+    # (Push.tla; stand-alone as bin/check XPUSH)
+    import pushcommon
+    push = pushcommon.run_part(ctx)
     ctx.write_evidence("model_checking", {
+        "push_handlers": push,
         "states": mc1.distinct + mc2.distinct, "transitions": mc1.generated + mc2.generated,
         "traces_validated_against_impl": summ["evaluations"], "vectors_emitted_by_tlc": nvec,
         "evaluations": summ["evaluations"], "distinct_nontrivial": summ["distinct_classes"],
